@@ -61,6 +61,9 @@ def run_all(ctx, props, faults=1):
     k = 6 if thorough else 1
     plan = [("A", "random", 40 * k, {}), ("B", "random", 12 * k, {}), ("C", "random", 15 * k, {}),
             ("D", "natural", 12 * k, {}), ("E", "natural", 8 * k, {}), ("A", "random", 12 * k, {"gd": 1}), ("U", "random", 20 * k, {"gd": 1, "users": 3}),
+            # several users without global dedup: a user who uploads what another one uploaded produces byte-identical
+            # xorbs and shards, which the store answers with "exists"
+            ("A", "random", 12 * k, {"users": 3}),
             # several processes of one user: the same shard cache directory reached through separate manager instances
             ("A", "random", 15 * k, {"users": 1002}),
             # uploads through the real RemoteClient to a loopback server in front of the observing store: what goes over
